@@ -551,18 +551,35 @@ def check_adapters(s, rule="C13.7"):
         io = ios[0]
         out = b.apply(io[2][0], (("param", "$act"),), ())
         st = [x for x in walk(out) if isinstance(x, tuple) and x and x[0] == "call" and x[1] == ("attr", ("attr", self_, "env"), "step")]
-        okc = len(st) == 1 and isinstance(out, tuple) and out[0] == "tuple" and len(out[1]) == 4
+        NAMES = ("observation", "reward", "terminal", "truncated")
+        # two spellings of one plumbing: the callback returns a 4-tuple that the method unpacks into the state's fields, or it returns
+        # the state record itself and the method hands the io_callback result on. Either way field F of the successor state is, through
+        # the callback, element idx(F) of gym's step()
+        as_record = isinstance(out, tuple) and out[0] == "record" and out[1].endswith("GymEnvState")
+        if as_record:
+            fo = fields(out)
+            composed = {n_: fo.get(n_) for n_ in NAMES} if p.ret == io else {}
+            okf = p.ret == io
+        else:
+            elems = out[1] if isinstance(out, tuple) and out[0] == "tuple" and len(out[1]) == 4 else None
+            idx = {n_: next((i for i in range(4) if f.get(n_) == ("item", io, i)), None) for n_ in NAMES}
+            composed = {n_: elems[idx[n_]] for n_ in NAMES if elems is not None and idx[n_] is not None}
+            okf = all(idx[n_] is not None for n_ in NAMES) and len(set(idx.values())) == 4
+        okc = len(st) == 1 and len(composed) == 4
         if okc:
-            for i in range(4):
-                okc = okc and nz.canon(out[1][i]) == nz.canon(("item", st[0], i))
-        s.ob(rule, con, okc, "the callback returns elements (0,1,2,3) = (obs, reward, terminated, truncated) of gym step()", loc, key="gym-callback-order",
-             detail=show(out, maxlen=300))
-        okf = all(f.get(n_) == ("item", io, i) for i, n_ in enumerate(("observation", "reward", "terminal", "truncated")))
-        s.ob(rule, con, okf, "state fields (observation, reward, terminal, truncated) are elements (0,1,2,3) of the io_callback result", loc, key="gym-state-fields",
+            for i, n_ in enumerate(NAMES):
+                okc = okc and composed[n_] is not None and nz.canon(composed[n_]) == nz.canon(("item", st[0], i))
+        s.ob(rule, con, okc, "through the callback, the fields (observation, reward, terminal, truncated) are elements (0,1,2,3) = (obs, reward, terminated, truncated) of gym step()", loc,
+             key="gym-callback-order", detail=show(out, maxlen=300), necessary_for="terminated and truncated are not interchanged")
+        s.ob(rule, con, okf, "every state field comes out of the one io_callback result (unpacked element by element, or the result is the state)", loc, key="gym-state-fields",
              detail=show(p.ret, maxlen=300), necessary_for="terminated and truncated are not interchanged")
         shapes = io[2][1] if len(io[2]) > 1 else None
-        oks = isinstance(shapes, tuple) and shapes[0] == "tuple" and len(shapes[1]) == 4
-        s.ob(rule, con, oks, "the result-shape tuple has one entry per returned element", loc, key="gym-shape-tuple", detail=show(shapes or NONE, maxlen=200))
+        if as_record:
+            oks = isinstance(shapes, tuple) and shapes[0] == "record" and shapes[1] == out[1] and set(NAMES) <= set(fields(shapes))
+        else:
+            oks = isinstance(shapes, tuple) and shapes[0] == "tuple" and len(shapes[1]) == 4
+        s.ob(rule, con, oks, "the result-shape template has the structure the callback returns (one entry per returned element / the same state class)", loc, key="gym-shape-tuple",
+             detail=show(shapes or NONE, maxlen=200))
     for meth, want in (("observation", "state.observation"), ("reward", "next_state.reward"), ("terminal", "state.terminal"), ("truncate", "state.truncated")):
         pp = one(s.paths(b, "GymToLeraxEnv", meth), f"GymToLeraxEnv.{meth}")
         s.ob(rule, f"GymToLeraxEnv.{meth}", pp.ret == s.ref(b, want, {"state": ("param", "state"), "next_state": ("param", "next_state")}), f"{meth} == {want}",
